@@ -8,6 +8,11 @@ require (
 	google.golang.org/protobuf v1.26.0
 )
 
+require (
+	github.com/josharian/intern v1.0.0 // indirect
+	github.com/mailru/easyjson v0.7.7 // indirect
+)
+
 replace github.com/philpearl/plenc => /repo
 
 replace github.com/unravelin/null => github.com/unravelin/null/v4 v4.2.0
